@@ -46,7 +46,7 @@ EA_RULES = [
     (r"const auto costToGoal = computeCostToGoToGoal\(state\);", "const double costToGoal = COST_TO_GOAL();", 0), (r"\bisBetter\(", "better(", 0), (r"problem_->hasSolution\(\)", "HAS_SOLUTION()", 0),
     (r"approximateSolutionCost_ = state->getCurrentCostToCome\(\);", "approximateSolutionCost_ = COST_TO_COME;", 0),
     (r"ompl::base::PlannerSolution solution\(getPathToState\(state\)\);", "Sol solution; solution.path = 1; solution.approx = 0; solution.dif = 0.0; solution.cost = 0.0; solution.optimized = 0;", 0),
-    (r"solution\.setPlannerName\(name_\);", "", 0), (r"solution\.setApproximate\(costToGoal\.value\(\)\);", "solution.approx = 1; solution.dif = costToGoal;", 0),
+    (r"solution\.setPlannerName\(name_\);", "", 0), (r"solution\.setApproximate\((\w+)\.value\(\)\);", r"solution.approx = 1; solution.dif = \1;", 0),
     (r"solution\.setOptimized\(objective_, approximateSolutionCost_, false\);", "solution.cost = approximateSolutionCost_; solution.optimized = 0;", 0), (r"pdef_->addSolutionPath\(solution\);", "ADD_SOLUTION(&solution);", 0),
     (r"Planner::setProblemDefinition\(pdef\);", "BASE_SET(pdef);", 0), (r"clearQuery\(\);", "prm_clearQuery();", 0), (r"startM_\.clear\(\);", "startM_n = 0;", 0), (r"goalM_\.clear\(\);", "goalM_n = 0;", 0), (r"pis_\.restart\(\);", "pis_restarted = 1;", 0),
 ]
